@@ -53,9 +53,14 @@ abbrev El := List Nat
 /-- a digest of a Rescue hasher: four raw words -/
 abbrev Dg := List Nat
 
-/-- the operations of `E` (`FieldElement`) the verifier uses, over the base field `I` -/
+/-- the operations of `E` (`FieldElement`) the verifier uses, over the base field `I`.  `norm` maps a raw word to
+    the canonical raw word of the same residue (the identity for the 64-bit field, whose raw words are canonical;
+    `normalize` for the 62-bit field, whose raw words live in `[0, 2^62)` with `M < 2^62` and whose `==` normalizes):
+    every operation result is normalized, so that the structural equality the decision function uses on values and
+    digests is the `==` of the code -/
 structure EOps where
   I : FieldImpl
+  norm : Nat → Nat
   deg : Nat
   zero : El
   one : El
@@ -74,65 +79,68 @@ def binv (I : FieldImpl) (x : Nat) : Nat :=
   | .done r => r
   | .out => I.new 0
 
-def addEl (I : FieldImpl) (a b : El) : El := List.zipWith I.add a b
-def subEl (I : FieldImpl) (a b : El) : El := List.zipWith I.sub a b
+def addEl (I : FieldImpl) (nm : Nat → Nat) (a b : El) : El := (List.zipWith I.add a b).map nm
+def subEl (I : FieldImpl) (nm : Nat → Nat) (a b : El) : El := (List.zipWith I.sub a b).map nm
 
-def baseOps (I : FieldImpl) : EOps where
+def baseOps (I : FieldImpl) (nm : Nat → Nat) : EOps where
   I := I
+  norm := nm
   deg := 1
-  zero := [I.new 0]
-  one := [I.new 1]
-  add := addEl I
-  sub := subEl I
-  mul := List.zipWith I.mul
-  inv := List.map (binv I)
-  ofBase := fun x => [x]
+  zero := [nm (I.new 0)]
+  one := [nm (I.new 1)]
+  add := addEl I nm
+  sub := subEl I nm
+  mul := fun a b => (List.zipWith I.mul a b).map nm
+  inv := fun a => a.map (fun x => nm (binv I x))
+  ofBase := fun x => [nm x]
 
-def quadMul (X2 : Ext2 Nat) : El → El → El
-  | [a0, a1], [b0, b1] => let p := X2.mul a0 a1 b0 b1; [p.1, p.2]
+def quadMul (X2 : Ext2 Nat) (nm : Nat → Nat) : El → El → El
+  | [a0, a1], [b0, b1] => let p := X2.mul a0 a1 b0 b1; [nm p.1, nm p.2]
   | _, _ => []
 
 /-- `QuadExtension::inv`; its debug assertion (`norm[1] == 0`) and a base inversion that does not return are
     mapped to zero: neither happens over the fields of the instances (C08) -/
-def quadInv (I : FieldImpl) (X2 : Ext2 Nat) : El → El
+def quadInv (I : FieldImpl) (X2 : Ext2 Nat) (nm : Nat → Nat) : El → El
   | [a0, a1] =>
     match Quad.inv (BOps.ofImpl I) X2 ⟨a0, a1⟩ with
-    | .ok r => [r.c0, r.c1]
-    | _ => [I.new 0, I.new 0]
+    | .ok r => [nm r.c0, nm r.c1]
+    | _ => [nm (I.new 0), nm (I.new 0)]
   | _ => []
 
-def quadOps (I : FieldImpl) (X2 : Ext2 Nat) : EOps where
+def quadOps (I : FieldImpl) (X2 : Ext2 Nat) (nm : Nat → Nat) : EOps where
   I := I
+  norm := nm
   deg := 2
-  zero := [I.new 0, I.new 0]
-  one := [I.new 1, I.new 0]
-  add := addEl I
-  sub := subEl I
-  mul := quadMul X2
-  inv := quadInv I X2
-  ofBase := fun x => [x, I.new 0]
+  zero := [nm (I.new 0), nm (I.new 0)]
+  one := [nm (I.new 1), nm (I.new 0)]
+  add := addEl I nm
+  sub := subEl I nm
+  mul := quadMul X2 nm
+  inv := quadInv I X2 nm
+  ofBase := fun x => [nm x, nm (I.new 0)]
 
-def cubeMul (X3 : Ext3 Nat) : El → El → El
-  | [a0, a1, a2], [b0, b1, b2] => let p := X3.mul a0 a1 a2 b0 b1 b2; [p.1, p.2.1, p.2.2]
+def cubeMul (X3 : Ext3 Nat) (nm : Nat → Nat) : El → El → El
+  | [a0, a1, a2], [b0, b1, b2] => let p := X3.mul a0 a1 a2 b0 b1 b2; [nm p.1, nm p.2.1, nm p.2.2]
   | _, _ => []
 
-def cubeInv (I : FieldImpl) (X3 : Ext3 Nat) : El → El
+def cubeInv (I : FieldImpl) (X3 : Ext3 Nat) (nm : Nat → Nat) : El → El
   | [a0, a1, a2] =>
     match Cube.inv (BOps.ofImpl I) X3 ⟨a0, a1, a2⟩ with
-    | .ok r => [r.c0, r.c1, r.c2]
-    | _ => [I.new 0, I.new 0, I.new 0]
+    | .ok r => [nm r.c0, nm r.c1, nm r.c2]
+    | _ => [nm (I.new 0), nm (I.new 0), nm (I.new 0)]
   | _ => []
 
-def cubeOps (I : FieldImpl) (X3 : Ext3 Nat) : EOps where
+def cubeOps (I : FieldImpl) (X3 : Ext3 Nat) (nm : Nat → Nat) : EOps where
   I := I
+  norm := nm
   deg := 3
-  zero := [I.new 0, I.new 0, I.new 0]
-  one := [I.new 1, I.new 0, I.new 0]
-  add := addEl I
-  sub := subEl I
-  mul := cubeMul X3
-  inv := cubeInv I X3
-  ofBase := fun x => [x, I.new 0, I.new 0]
+  zero := [nm (I.new 0), nm (I.new 0), nm (I.new 0)]
+  one := [nm (I.new 1), nm (I.new 0), nm (I.new 0)]
+  add := addEl I nm
+  sub := subEl I nm
+  mul := cubeMul X3 nm
+  inv := cubeInv I X3 nm
+  ofBase := fun x => [nm x, nm (I.new 0), nm (I.new 0)]
 
 /-- `get_root_of_unity(k)`; `none` = its assertions -/
 def rootRaw (I : FieldImpl) (k : Nat) : Option Nat := I.rootOfUnity k
@@ -174,6 +182,8 @@ structure Inst where
   name : String
   /-- `AIR::BaseField` -/
   I : FieldImpl
+  /-- the canonical raw word of the residue of a raw word (`PartialEq for BaseElement` compares these) -/
+  norm : Nat → Nat
   /-- the formulas of `ExtensibleField<2>` / `ExtensibleField<3>` of the base field -/
   X2 : Ext2 Nat
   X3 : Ext3 Nat
@@ -195,6 +205,7 @@ structure Inst where
 def Inst.rp64 : Inst where
   name := "f64/rp64_256"
   I := F64.impl
+  norm := id
   X2 := Ext2.f64 (BOps.ofImpl F64.impl).toFOps
   X3 := Ext3.f64 (BOps.ofImpl F64.impl).toFOps
   cubic := true
@@ -212,6 +223,7 @@ def Inst.rpjive : Inst := { Inst.rp64 with name := "f64/rpjive64_256", P := Resc
 def Inst.rp62 : Inst where
   name := "f62/rp62_248"
   I := F62.impl
+  norm := Gen.F62.normalize
   X2 := Ext2.f62 (BOps.ofImpl F62.impl).toFOps
   X3 := Ext3.f62 (BOps.ofImpl F62.impl).toFOps
   cubic := true
@@ -224,8 +236,8 @@ def Inst.rp62 : Inst where
 
 /-- the element type selected by `FieldExtension` (discriminant 1, 2, 3) -/
 def extOps (J : Inst) (ext : Nat) : Option EOps :=
-  if ext = 1 then some (baseOps J.I) else if ext = 2 then some (quadOps J.I J.X2)
-  else if ext = 3 then some (cubeOps J.I J.X3) else none
+  if ext = 1 then some (baseOps J.I J.norm) else if ext = 2 then some (quadOps J.I J.X2 J.norm)
+  else if ext = 3 then some (cubeOps J.I J.X3 J.norm) else none
 
 /-- the hasher as the public coin uses it (seed elements are canonical integers) -/
 def hashOps (J : Inst) : Coin.HashOps Dg where
@@ -234,11 +246,12 @@ def hashOps (J : Inst) : Coin.HashOps Dg where
   mergeWithInt := Rescue.mergeWithInt J.P
   asBytes := J.asBytes
 
-/-- the hasher as the Merkle code uses it -/
-def merkleH (J : Inst) : Merkle.Hasher Dg := ⟨Rescue.merge J.P, List.replicate 4 (J.I.new 0)⟩
+/-- the hasher as the Merkle code uses it (digests in canonical raw words: digest equality is element equality) -/
+def merkleH (J : Inst) : Merkle.Hasher Dg :=
+  ⟨fun a b => (Rescue.merge J.P a b).map J.norm, List.replicate 4 (J.norm (J.I.new 0))⟩
 
 /-- `H::hash_elements(&[E])`: the coordinates of all elements, in order -/
-def hashEls (J : Inst) (vs : List El) : Dg := Rescue.hashElementsExt J.P vs
+def hashEls (J : Inst) (vs : List El) : Dg := (Rescue.hashElementsExt J.P vs).map J.norm
 
 def fieldDesc (J : Inst) : Coin.FieldDesc := ⟨J.I.M, J.I.bytes⟩
 
@@ -248,7 +261,7 @@ def coinOps (J : Inst) (E : EOps) : VerifierChecks.CoinOps (Coin.Coin Dg) Dg El 
   reseed := Coin.reseed (hashOps J)
   draw := fun c =>
     match Coin.draw (hashOps J) (fieldDesc J) E.deg c with
-    | (.elem cs, c') => some (cs.map J.I.new, c')
+    | (.elem cs, c') => some (cs.map (fun c => J.norm (J.I.new c)), c')
     | _ => none
   drawInts := fun c n dom nonce =>
     match Coin.drawIntegers (hashOps J) n dom nonce c with
@@ -732,9 +745,9 @@ def chanCfg (J : Inst) (ctx : Serde.Context) (ncols : Nat) : VerifierChecks.Chan
     numFriLayers := (Protocol.friLayers lde ((o.remDeg + 1) * o.blowup) o.folding).1,
     folding := o.folding, lagrangeLog := none }
 
-/-- canonical coordinates (as the readers deliver them) to raw words -/
-def rawEl (J : Inst) (cs : List Nat) : El := cs.map J.I.new
-def rawDg (J : Inst) (cs : List Nat) : Dg := cs.map J.I.new
+/-- canonical coordinates (as the readers deliver them) to canonical raw words -/
+def rawEl (J : Inst) (cs : List Nat) : El := cs.map fun c => J.norm (J.I.new c)
+def rawDg (J : Inst) (cs : List Nat) : Dg := cs.map fun c => J.norm (J.I.new c)
 
 def rawOpening (J : Inst) (o : VerifierChecks.ParsedOpening) : VerifierChecks.Opening El Dg :=
   ⟨o.rows.map (·.map (rawEl J)), o.nodes.map (·.map (rawDg J))⟩
